@@ -585,7 +585,8 @@ def check_ellipse_repeat(case, ctx):
 def ellipse_cases(draw):
     opts = [{'integrmode': 'median'}, {'fix_center': True}, {'fix_pa': True},
             {'fix_eps': True}, {'linear': True, 'step': 2.0}, {'step': 0.2},
-            {}]
+            {}, {'sma0': 6.0}, {'sma0': 14.0}, {'minsma': 3.0},
+            {'nclip': 2, 'sclip': 2.5}, {'conver': 0.1}, {'maxgerr': 1.0}]
     return {'galaxy': {'shape': [64, 64], 'x0': draw(st.floats(28, 36)),
                        'y0': draw(st.floats(28, 36)),
                        'eps': draw(st.floats(0.1, 0.5)),
@@ -619,5 +620,5 @@ SUBCHECKS = [
              quick=(16, 60), thorough=(16, 1200)),
     SubCheck('ellipse_repeat', ellipse_cases(), check_ellipse_repeat,
              'non-trivial = two fit_image calls with different arguments',
-             quick=(16, 3), thorough=(16, 40), budget_quick=80),
+             quick=(16, 4), thorough=(16, 40), budget_quick=80),
 ]
